@@ -314,3 +314,46 @@ func VerifC18RefusedAfterFailure() {
 	_, serr := src.SerializePolicies()
 	vAssert(serr != nil, "C18.refused-after-evaluation")
 }
+
+// VerifC12TwinRules: two rules that differ in nothing but the comparison they make both count, in either
+// order of registration; so do a rule and its exact copy.
+func VerifC12TwinRules() {
+	vForbidPanic("C12")
+	vTimerMode(0)
+	gNames, gVarName = 0, "x"
+	ops := [...]BinaryOp{BinaryLessThan, BinaryGreaterThan, BinaryLessOrEqual, BinaryGreaterOrEqual, BinaryEqual}
+	o1 := ops[vChoose("op1", len(ops))]
+	o2 := ops[vChoose("op2", len(ops))]
+	e := vInt64("e")
+	c1, c2 := vInt64("c1"), vInt64("c2")
+	mk := func(op BinaryOp) Rule {
+		return Rule{Head: Predicate{Name: "q", IDs: []Term{Variable("x")}},
+			Body:        []Predicate{{Name: "s", IDs: []Term{Variable("x")}}},
+			Expressions: []Expression{{Value{Variable("x")}, Value{Integer(e)}, op}}}
+	}
+	authority := gBlock{facts: []gAtom{{name: "s", c: c1}, {name: "s", c: c2}}}
+	g := gBuildToken(authority, nil)
+	probe := Rule{Head: Predicate{Name: "r", IDs: []Term{Variable("x")}}, Body: []Predicate{{Name: "q", IDs: []Term{Variable("x")}}}}
+	run := func(first, second Rule) gRun {
+		a, err := NewVerifier(g.tok, gPatient)
+		if err != nil {
+			vAssume(false)
+		}
+		a.AddRule(first)
+		a.AddRule(second)
+		a.AddPolicy(Policy{Kind: PolicyKindAllow, Queries: []Rule{{Head: Predicate{Name: "allow"}, Body: []Predicate{{Name: "q", IDs: []Term{Integer(c2)}}}}}})
+		var r gRun
+		r.class = gClass(a.Authorize())
+		fs, qerr := a.Query(probe)
+		r.facts, r.qerr = fs, qerr != nil
+		return r
+	}
+	ab := run(mk(o1), mk(o2))
+	ba := run(mk(o2), mk(o1))
+	vObserve("class", ab.class)
+	vCover("compared")
+	vAssert(ab.class == ba.class, "C12.twin-rules-same-outcome")
+	if !ab.qerr && !ba.qerr {
+		vAssert(gSetEq(ab.facts, ba.facts), "C12.twin-rules-same-derived-facts")
+	}
+}
